@@ -14,6 +14,9 @@ import TraitsVerif.Props.C05
 import TraitsVerif.Model.Nested
 import TraitsVerif.Props.C06
 import TraitsVerif.Props.C07
+import TraitsVerif.Lemmas.PyLObj
+import TraitsVerif.Generated.CtorCopy
+import TraitsVerif.Model.CtorCopyAssumed
 namespace TraitsVerif.Props.C04
 open TraitsVerif TraitsVerif.Py TraitsVerif.Model
 variable {α : Type}
@@ -524,6 +527,112 @@ example :
       cfg13 rejNeg [1, 2, 3] (.setSlice ⟨none, none, some (-2)⟩ [7, 8])
         = .done [8, 2, 7] none [⟨.slc 0 3 2, [1, 3], [8, 7]⟩] :=
   ⟨rfl, rfl, rfl⟩
+
+/-! ### Tie to the source: when is an item validated, when is the length checked, when is the items event delivered
+
+The mutators (above) call `self.item_validator` / `self._validate_length` /
+`self.notify`; for the value of a `List` trait these are
+`TraitListObject._item_validator`, `_validate_length` and `notifier`, which look
+at the state of `self` first (trait `None`? owner alive? `name_items`? still the
+owner's current value?).  `translate/pylobj.py` translates their source text
+(`Generated/ObjProg.lean`); `Model/ContainerObject.lean` has the hand-written gates. -/
+
+section ObjectGates
+open TraitsVerif.Model.PyLO TraitsVerif.Model.Obj
+
+/-- **C04_item_validator_is_source.**  For every state of `self`, inner trait,
+call ordinal and item, the modelled `_item_validator` and `_validate_length` are
+what the interpreter computes on their translated source. -/
+theorem C04_item_validator_is_source {β : Type} (σ : OSelf) (inner : Bool → Callback β β) (n : Int) :
+    runValidator Generated.Obj.traitListObjectItemValidator .item σ inner = listItemValidator σ inner ∧
+    runLengthCheck Generated.Obj.traitListObjectValidateLength σ n = listValidateLength σ n :=
+  ⟨by funext k x; exact Lemmas.PyLObj.list_item_validator_is_source σ inner k x,
+   Lemmas.PyLObj.list_validate_length_is_source σ n⟩
+
+/-- **C04_notifier_gate_is_source.**  The modelled delivery gate of
+`TraitListObject.notifier` is the interpretation of its translated source. -/
+theorem C04_notifier_gate_is_source (σ : OSelf) :
+    runNotifier Generated.Obj.traitListObjectNotifier σ = listNotifier σ :=
+  Lemmas.PyLObj.list_notifier_is_source σ
+
+/-- **C04_trait_value_validates.**  The premise of the invariant theorems above
+(`TraitListObject.step c E` with `E.v` the inner trait's `validate` and `c` the
+trait's bounds) holds for the value a live owner holds — with or without items
+event (`items=False`), current or replaced: its item validator *is* the inner
+trait's `validate` called with the owner, and its length check *is* `c.ok`.
+Likewise for the keys / values of a `Dict` trait and the members of a `Set`
+trait.  (Only a value whose owner is gone — collected, deep-copied, unpickled —
+lets items through unvalidated; lists and dicts do, sets still validate after a
+deep copy: C07.) -/
+theorem C04_trait_value_validates {β : Type} (t : CT) (hasItems : Bool) (inner : Bool → Callback β β) (n : Int) :
+    (t.itemNone = false →
+      listItemValidator (OSelf.live t hasItems) inner = inner true ∧
+      listItemValidator (OSelf.live t hasItems).detached inner = inner true ∧
+      setItemValidator (OSelf.live t hasItems) inner = inner true ∧
+      setItemValidator (OSelf.live t hasItems).detached inner = inner true) ∧
+    (∀ w, t.validateNone w = false →
+      dictValidator w (OSelf.live t hasItems) inner = inner true ∧
+      dictValidator w (OSelf.live t hasItems).detached inner = inner true) ∧
+    (listValidateLength (OSelf.live t hasItems) n = .ok () ↔ (LenCfg.mk t.minlen t.maxlen).ok n = true) ∧
+    (listValidateLength (OSelf.live t hasItems) n = .error .traitError ↔ (LenCfg.mk t.minlen t.maxlen).ok n = false) := by
+  refine ⟨?_, ?_, ?_, ?_⟩
+  · intro hv
+    refine ⟨?_, ?_, ?_, ?_⟩ <;> funext k x <;>
+      simp [listItemValidator, setItemValidator, OSelf.live, OSelf.detached, traitOrNone, hv]
+  · intro w hv
+    exact ⟨(C06.C06_trait_value_validates t hasItems inner w hv).1, (C06.C06_trait_value_validates t hasItems inner w hv).2.1⟩
+  · by_cases h : (t.minlen : Int) ≤ n ∧ n ≤ (t.maxlen : Int) <;>
+      simp [listValidateLength, OSelf.live, traitOrNone, LenCfg.ok, h]
+  · by_cases h : (t.minlen : Int) ≤ n ∧ n ≤ (t.maxlen : Int) <;>
+      simp [listValidateLength, OSelf.live, traitOrNone, LenCfg.ok, h]
+
+/-- **C04_items_event_gate.**  The `<name>_items` event of a `List` trait is
+delivered — once, as `TraitListEvent(index=index, removed=removed, added=added)`
+built from the notifier's own arguments in that order — exactly when the list
+has a trait with an items event, the owner is alive and the list is still the
+owner's current value. -/
+theorem C04_items_event_gate (σ : OSelf) (ds : List Delivery) :
+    listNotifier σ = .ok ds →
+      (ds = [⟨"TraitListEvent", [("index", 1), ("removed", 2), ("added", 3)]⟩] ∧
+        σ.nameItems = true ∧ σ.object = some true ∧ σ.current = true ∧ ∃ t, σ.trait = some (some t)) ∨
+      (ds = [] ∧ (σ.trait = some none ∨ σ.nameItems = false ∨ σ.object = some false ∨ σ.current = false)) := by
+  obtain ⟨tr, ob, ni, cu⟩ := σ
+  rcases tr with _ | _ | t <;> rcases ob with _ | _ | _ <;> cases ni <;> cases cu <;>
+    simp [listNotifier, deliver, listDelivery] <;> (intro h; simp [← h])
+
+/-- Non-vacuity: the interpreted source on a live `List(Range(low=0), 1..3, items=False)` value. -/
+example :
+    runValidator Generated.Obj.traitListObjectItemValidator .item (OSelf.live { minlen := 1, maxlen := 3 } false)
+        (fun _ _ (x : Int) => if x < 0 then .error .traitError else .ok x) 0 (-3) = .error .traitError ∧
+    runValidator Generated.Obj.traitListObjectItemValidator .item (OSelf.live { minlen := 1, maxlen := 3 } false).orphaned
+        (fun _ _ (x : Int) => if x < 0 then .error .traitError else .ok x) 0 (-3) = .ok (-3) ∧
+    runLengthCheck Generated.Obj.traitListObjectValidateLength (OSelf.live { minlen := 1, maxlen := 3 } false) 4
+        = .error .traitError ∧
+    runLengthCheck Generated.Obj.traitListObjectValidateLength (OSelf.live { minlen := 1, maxlen := 3 } false).afterSetstate 4
+        = .ok () ∧
+    runNotifier Generated.Obj.traitListObjectNotifier (OSelf.live {} false) = .ok [] ∧
+    runNotifier Generated.Obj.traitListObjectNotifier (OSelf.live {} true) = .ok [listDelivery] := by
+  refine ⟨?_, ?_, ?_, ?_, ?_, ?_⟩ <;> first | rfl | decide
+
+end ObjectGates
+
+/-- **C04_init_source.**  `TraitListObject.__init__` is, statement for
+statement, what `TraitListObject.assign`, `OSelf.live` and the drivers assume:
+owner by weak reference iff `is not None`, `name_items` iff the trait has an
+items event, the length of the listed value checked before any item is
+validated, then `TraitList.__init__` with the object's own `_item_validator`
+and `[self.notifier]`. -/
+theorem C04_init_source :
+    (Generated.CtorCopy.traitListObjectCtorCopy.take 1) = (Model.CtorCopyAssumed.traitListObjectCtorCopy.take 1) := by
+  first | rfl | exact ⟨rfl, rfl⟩
+
+/-- **C04_copy_source.**  `__deepcopy__` / `__getstate__` / `__setstate__` of
+`TraitListObject` and `TraitDictObject` are the ones `OSelf.afterDeepcopy` /
+`OSelf.afterSetstate` transcribe (trait kept, owner dropped / both dropped). -/
+theorem C04_copy_source :
+    (Generated.CtorCopy.traitListObjectCtorCopy.drop 1) = (Model.CtorCopyAssumed.traitListObjectCtorCopy.drop 1) ∧
+    Generated.CtorCopy.traitDictObjectCtorCopy = Model.CtorCopyAssumed.traitDictObjectCtorCopy := by
+  first | rfl | exact ⟨rfl, rfl⟩
 
 /-- A reachable state meeting `Inv`, an accepted and two rejected operations. -/
 example : Inv cfg13 rejNeg [1, 2] := by
